@@ -16,11 +16,11 @@ RULE = ("case = one template program with a subsumptive clause whose dominance c
 
 def program(seed):
     rng = random.Random(seed)
-    shape = rng.choice(["sssp", "apsp", "pareto", "interval", "keymax"])
+    shape = rng.choice(["sssp", "apsp", "apsp-nonlinear", "pareto", "interval", "keymax"])
     q = rng.choice(["btree_delete", "btree_delete", ""])
     o = []
     spec = dict(shape=shape)
-    if shape in ("sssp", "apsp", "pareto"):
+    if shape in ("sssp", "apsp", "apsp-nonlinear", "pareto"):
         n = rng.randint(3, 9)
         bound = rng.choice([12, 20, 30])
         if shape == "pareto":
@@ -67,8 +67,9 @@ def program(seed):
                 dom = lambda t, u: t != u and t[0] == u[0] and u[1] <= t[1]
                 spec.update(rel="dist", U=U, dom=dom)
             else:
-                o += [".decl dist(a:number, b:number, d:number) %s" % q, ".output dist", "dist(a, b, w) :- edge(a, b, w).",
-                      "dist(a, c, d + w) :- dist(a, b, d), edge(b, c, w), d + w < %d." % bound,
+                rec_rule = ("dist(a, c, d + w) :- dist(a, b, d), edge(b, c, w), d + w < %d." % bound) if shape == "apsp" else \
+                    ("dist(a, c, d1 + d2) :- dist(a, b, d1), dist(b, c, d2), d1 + d2 < %d." % bound)      # two recursive atoms: delta versions 0 and 1
+                o += [".decl dist(a:number, b:number, d:number) %s" % q, ".output dist", "dist(a, b, w) :- edge(a, b, w).", rec_rule,
                       "dist(a, b, d1) <= dist(a, b, d2) :- d2 %s d1." % op]
                 U = set(edges)
                 frontier = set(U)
